@@ -1770,4 +1770,210 @@ theorem writeReal_shape {F} (ops : FloatOps F) (v : F) (h : G15Shape (ops.fmtG15
       simpa [realText] using this
 
 
+/-! ### STRING: the quote-parity automaton and the string grammar -/
+theorem litLoop_plain (srev : List Byte) (c : Byte) (r : List Byte) (hc : c ≠ 39) :
+    litLoop srev true (c :: r) = litLoop (c :: srev) true r := by
+  have : (c == 39) = false := by simpa using hc
+  simp [litLoop, this]
+
+theorem litLoop_run (srev run r : List Byte) (h : ∀ b ∈ run, b ≠ 39) :
+    litLoop srev true (run ++ r) = litLoop (run.reverse ++ srev) true r := by
+  induction run generalizing srev with
+  | nil => rfl
+  | cons a u ih =>
+    have ha : a ≠ 39 := h a (by simp)
+    simp only [List.cons_append]
+    rw [litLoop_plain _ _ _ ha, ih _ (fun b hb => h b (by simp [hb]))]
+    simp
+
+theorem litLoop_quote (srev : List Byte) (esc : Bool) (r : List Byte) :
+    litLoop srev esc (39 :: r) = litLoop (39 :: srev) (if endsWithSEsc srev then esc else !esc) r := by
+  simp [litLoop]
+
+theorem nonq_ne (c : Byte) (h : isNonQ c = true) : c ≠ 39 ∧ c ≠ 92 := by
+  constructor <;> (intro e; subst e; revert h; decide)
+
+theorem hex_ne (c : Byte) (h : isHexP21 c = true) : c ≠ 39 ∧ c ≠ 92 := by
+  simp [isHexP21, isDigit] at h
+  constructor <;> (intro e; subst e; revert h; decide)
+
+theorem upper_ne (c : Byte) (h : isUpperP21 c = true) : c ≠ 39 ∧ c ≠ 92 := by
+  constructor <;> (intro e; subst e; revert h; decide)
+
+/-- the quote-parity automaton passes over every body of the string grammar with `allDelimsEscaped` back to true, and
+    never ends a unit on the characters `\S\` -/
+theorem litLoop_body (b : List Byte) (hb : StringBody b) (srev r : List Byte) (hinv : endsWithSEsc srev = false) :
+    litLoop srev true (b ++ r) = litLoop (b.reverse ++ srev) true r ∧ endsWithSEsc (b.reverse ++ srev) = false := by
+  induction hb generalizing srev with
+  | nil => exact ⟨rfl, hinv⟩
+  | @nonq c m hc _ ih =>
+    obtain ⟨h1, h2⟩ := nonq_ne c hc
+    have hinv' : endsWithSEsc (c :: srev) = false := by
+      unfold endsWithSEsc; split
+      · rename_i heq; simp at heq; exact absurd heq.1 h2
+      · rfl
+    obtain ⟨e1, e2⟩ := ih (c :: srev) hinv'
+    refine ⟨?_, by simpa using e2⟩
+    simp only [List.cons_append]
+    rw [litLoop_plain _ _ _ h1, e1]; simp
+  | @apos m _ ih =>
+    have hinv' : endsWithSEsc (39 :: 39 :: srev) = false := rfl
+    obtain ⟨e1, e2⟩ := ih (39 :: 39 :: srev) hinv'
+    refine ⟨?_, by simpa using e2⟩
+    simp only [List.cons_append]
+    rw [litLoop_quote, hinv, litLoop_quote]
+    simp only [Bool.false_eq_true, if_false, Bool.not_true, Bool.not_false]
+    have : endsWithSEsc (39 :: srev) = false := rfl
+    rw [this]
+    simp only [Bool.false_eq_true, if_false, Bool.not_false]
+    rw [e1]; simp
+  | @backslash m _ ih =>
+    have hinv' : endsWithSEsc (92 :: 92 :: srev) = false := rfl
+    obtain ⟨e1, e2⟩ := ih (92 :: 92 :: srev) hinv'
+    refine ⟨?_, by simpa using e2⟩
+    simp only [List.cons_append]
+    rw [litLoop_plain _ _ _ (by decide), litLoop_plain _ _ _ (by decide), e1]; simp
+  | @page c m hc _ ih =>
+    have hinv' : endsWithSEsc (c :: 92 :: 83 :: 92 :: srev) = false := by
+      unfold endsWithSEsc; split
+      · rename_i heq; simp at heq
+      · rfl
+    obtain ⟨e1, e2⟩ := ih (c :: 92 :: 83 :: 92 :: srev) hinv'
+    refine ⟨?_, by simpa using e2⟩
+    simp only [List.cons_append]
+    rw [litLoop_plain _ _ _ (by decide), litLoop_plain _ _ _ (by decide), litLoop_plain _ _ _ (by decide)]
+    by_cases hq : c = 39
+    · subst hq
+      rw [litLoop_quote]
+      have : endsWithSEsc (92 :: 83 :: 92 :: srev) = true := rfl
+      rw [this]; simp only [if_true]
+      rw [e1]; simp
+    · rw [litLoop_plain _ _ _ hq, e1]; simp
+  | @alphabet u m hu _ ih =>
+    obtain ⟨h1, _⟩ := upper_ne u hu
+    have hinv' : endsWithSEsc (92 :: u :: 80 :: 92 :: srev) = false := by
+      unfold endsWithSEsc; split
+      · rename_i heq; simp at heq
+      · rfl
+    obtain ⟨e1, e2⟩ := ih (92 :: u :: 80 :: 92 :: srev) hinv'
+    refine ⟨?_, by simpa using e2⟩
+    simp only [List.cons_append]
+    rw [litLoop_plain _ _ _ (by decide), litLoop_plain _ _ _ (by decide), litLoop_plain _ _ _ h1,
+      litLoop_plain _ _ _ (by decide), e1]; simp
+  | @arbitrary h1 h2 m hh1 hh2 _ ih =>
+    obtain ⟨a1, _⟩ := hex_ne h1 hh1
+    obtain ⟨a2, a3⟩ := hex_ne h2 hh2
+    have hinv' : endsWithSEsc (h2 :: h1 :: 92 :: 88 :: 92 :: srev) = false := by
+      unfold endsWithSEsc; split
+      · rename_i heq; simp at heq; exact absurd heq.1 a3
+      · rfl
+    obtain ⟨e1, e2⟩ := ih (h2 :: h1 :: 92 :: 88 :: 92 :: srev) hinv'
+    refine ⟨?_, by simpa using e2⟩
+    simp only [List.cons_append]
+    rw [litLoop_plain _ _ _ (by decide), litLoop_plain _ _ _ (by decide), litLoop_plain _ _ _ (by decide),
+      litLoop_plain _ _ _ a1, litLoop_plain _ _ _ a2, e1]; simp
+  | @extended w hs m hw hhs _ ih =>
+    have hw39 : w ≠ 39 := by rcases hw with rfl | rfl <;> decide
+    have hrun : ∀ b ∈ hs, b ≠ 39 := fun b hb => (hex_ne b (List.all_eq_true.mp hhs b hb)).1
+    have hinv' : endsWithSEsc (92 :: 48 :: 88 :: 92 :: (hs.reverse ++ (92 :: w :: 88 :: 92 :: srev))) = false := by
+      unfold endsWithSEsc; split
+      · rename_i heq; simp at heq
+      · rfl
+    obtain ⟨e1, e2⟩ := ih _ hinv'
+    refine ⟨?_, by simpa using e2⟩
+    simp only [List.cons_append]
+    rw [litLoop_plain _ _ _ (by decide), litLoop_plain _ _ _ (by decide), litLoop_plain _ _ _ hw39,
+      litLoop_plain _ _ _ (by decide), List.append_assoc, litLoop_run _ hs _ hrun]
+    simp only [List.cons_append]
+    rw [litLoop_plain _ _ _ (by decide), litLoop_plain _ _ _ (by decide), litLoop_plain _ _ _ (by decide),
+      litLoop_plain _ _ _ (by decide), e1]; simp
+
+theorem hexRun_spec (n : Nat) (fuel : Nat) (l r' : List Byte) (h : hexRun n fuel l = some r') :
+    ∃ hs, l = hs ++ 92 :: 88 :: 48 :: 92 :: r' ∧ hs.all isHexP21 = true := by
+  induction fuel generalizing l with
+  | zero => simp [hexRun] at h
+  | succ f ih =>
+    unfold hexRun at h
+    split at h
+    · rename_i r
+      simp only [Option.some.injEq] at h; subst h
+      exact ⟨[], rfl, rfl⟩
+    · have htd : l = l.take n ++ l.drop n := (List.take_append_drop n l).symm
+      by_cases hu : ((l.take n).length == n && (l.take n).all isHexP21) = true
+      · simp only [hu, if_true] at h
+        simp only [Bool.and_eq_true, beq_iff_eq] at hu
+        split at h
+        · rename_i r heq
+          simp only [Option.some.injEq] at h; subst h
+          exact ⟨l.take n, by rw [← heq]; exact htd, hu.2⟩
+        · obtain ⟨hs, e1, e2⟩ := ih _ h
+          refine ⟨l.take n ++ hs, ?_, by simp [hu.2, e2]⟩
+          rw [List.append_assoc, ← e1]; exact htd
+      · have hu' : ((l.take n).length == n && (l.take n).all isHexP21) = false := by simpa using hu
+        simp only [hu', Bool.false_eq_true, if_false] at h
+        cases h
+
+/-- soundness of the executable recogniser: what `stringBody` accepts up to the closing apostrophe is a `StringBody` -/
+theorem stringBody_sound (fuel : Nat) (l rest : List Byte) (h : stringBody fuel l = some rest) :
+    ∃ b, l = b ++ 39 :: rest ∧ StringBody b := by
+  induction fuel generalizing l with
+  | zero => simp [stringBody] at h
+  | succ f ih =>
+    unfold stringBody at h
+    split at h
+    · obtain ⟨b, e, hb⟩ := ih _ h
+      exact ⟨39 :: 39 :: b, by simp [e], .apos hb⟩
+    · simp only [Option.some.injEq] at h; subst h
+      exact ⟨[], rfl, .nil⟩
+    · obtain ⟨b, e, hb⟩ := ih _ h
+      exact ⟨92 :: 92 :: b, by simp [e], .backslash hb⟩
+    · split at h
+      · rename_i hc
+        obtain ⟨b, e, hb⟩ := ih _ h
+        exact ⟨92 :: 83 :: 92 :: _ :: b, by simp [e], .page hc hb⟩
+      · cases h
+    · split at h
+      · rename_i hu
+        obtain ⟨b, e, hb⟩ := ih _ h
+        exact ⟨92 :: 80 :: _ :: 92 :: b, by simp [e], .alphabet hu hb⟩
+      · cases h
+    · split at h
+      · rename_i hh
+        simp only [Bool.and_eq_true] at hh
+        obtain ⟨b, e, hb⟩ := ih _ h
+        exact ⟨92 :: 88 :: 92 :: _ :: _ :: b, by simp [e], .arbitrary hh.1 hh.2 hb⟩
+      · cases h
+    · split at h
+      · rename_i r' hrun
+        split at h
+        · obtain ⟨hs, e1, e2⟩ := hexRun_spec _ _ _ _ hrun
+          obtain ⟨b, e, hb⟩ := ih _ h
+          exact ⟨92 :: 88 :: 50 :: 92 :: (hs ++ 92 :: 88 :: 48 :: 92 :: b), by simp [e1, e], .extended (Or.inl rfl) e2 hb⟩
+        · cases h
+      · cases h
+    · split at h
+      · rename_i r' hrun
+        split at h
+        · obtain ⟨hs, e1, e2⟩ := hexRun_spec _ _ _ _ hrun
+          obtain ⟨b, e, hb⟩ := ih _ h
+          exact ⟨92 :: 88 :: 52 :: 92 :: (hs ++ 92 :: 88 :: 48 :: 92 :: b), by simp [e1, e], .extended (Or.inr rfl) e2 hb⟩
+        · cases h
+      · cases h
+    · split at h
+      · rename_i hc
+        obtain ⟨b, e, hb⟩ := ih _ h
+        exact ⟨_ :: b, by simp [e], .nonq hc hb⟩
+      · cases h
+    · cases h
+
+/-- every token `isString` accepts is an apostrophe, a `StringBody`, an apostrophe -/
+theorem isString_body (t : List Byte) (h : isString t = true) : ∃ b, t = 39 :: (b ++ [39]) ∧ StringBody b := by
+  unfold isString at h
+  split at h
+  · rename_i r
+    have : stringBody (r.length + 1) r = some [] := by simpa using h
+    obtain ⟨b, e, hb⟩ := stringBody_sound _ _ _ this
+    exact ⟨b, by rw [e], hb⟩
+  · cases h
+
 end StepModel.P21.Lemmas
